@@ -249,6 +249,11 @@ func (s *Sys) Ops() []Op {
 		}
 		b := g.blockBase(i)
 		ops = append(ops, s.mkOp("free", g.ipBytes(b), mask(g.page), fmt.Sprintf("free block %d (%s)", i, st)))
+		if s.foreign && g.width == 32 {
+			// the other legal spelling of an IPv4 /32: 16-byte (IPv4-mapped) address with a
+			// 128-bit-wide mask (IPNet.String prints the same a.b.c.d/32 for both)
+			ops = append(ops, s.mkOp("free", g.ipBytes(b).To16(), net.CIDRMask(128, 128), fmt.Sprintf("free block %d written as a 16-byte address with a /128 mask (%s)", i, st)))
+		}
 		if s.foreign && g.width == 128 && g.page < 128 {
 			// sub-prefixes of the block
 			up := g.ipBytes(new(big.Int).Add(b, new(big.Int).Rsh(g.size, 1)))
